@@ -145,7 +145,7 @@ __CPROVER_ensures((!SR_IDLE && ws->rxframe == NULL) ==> (g_rd_calls == OLD(g_rd_
 /* (the last line: what failing the connection on an out-of-memory condition touches, see ws_close) */
 #define WSF_FINISH_ASSIGNS g_rxq, g_recvq, WSF_FIN_GHOSTS, WSF_ALLOC_GHOSTS, WSF_MSG_GHOSTS, WSF_CLOSE_GHOSTS, \
 	ws->closed, ws->wclose, g_aio_close_calls, g_aio_reset_calls, WSF_RAND_GHOSTS, WSF_CTL_GHOSTS, g_start_calls, g_txq, ws->txframe, WSF_IOV_OF(ws->txaio), WSF_WR_GHOSTS, g_io_http; WSF_RXQ_ITEM_FIELDS
-#define WSF_FINISH_QUIET (g_close_calls == OLD(g_close_calls) && g_ctl_calls == OLD(g_ctl_calls) && ws->closed == OLD(ws->closed))
+#define WSF_FINISH_QUIET (g_close_calls == OLD(g_close_calls) && g_ctl_calls == OLD(g_ctl_calls) && g_ctl_op == OLD(g_ctl_op) && g_ctl_len == OLD(g_ctl_len) && ws->closed == OLD(ws->closed))
 #ifndef WSF_FINISH_FULL
 static void ws_read_finish_msg(nni_ws *ws)
 __CPROVER_assigns(WSF_FINISH_ASSIGNS)
